@@ -3,3 +3,4 @@ pub mod rng;
 pub mod out;
 pub mod enc;
 pub mod sys;
+pub mod sysops;
